@@ -1,5 +1,7 @@
 mod c10;
 mod c11;
+mod c14;
+mod hello;
 mod policy;
 mod props;
 mod replica;
@@ -22,7 +24,10 @@ fn main() {
         "C09" => props::run_c09(&ctx),
         "C10" => c10::run(&ctx),
         "C11" => c11::run(&ctx),
+        "C14" => c14::run(&ctx),
         "C16" => sync::run(&ctx, "C16"),
+        "C19" => hello::run_c19(&ctx),
+        "C20" => hello::run_c20(&ctx),
         "C17" => sync::run(&ctx, "C17"),
         p => {
             println!("INCONCLUSIVE vh-rt does not serve {p}");
